@@ -182,6 +182,29 @@ func registerIntrinsics(e *Engine) {
 		st.StackLimit = int(n.Val)
 		return nil, true
 	}
+	I[nd+"SliceLen"] = func(e *Engine, st *State, th *Thread, args []Value, call *ssa.CallCommon) (Value, bool) {
+		sl, ok := args[0].(Iface).V.(Slice)
+		if !ok {
+			e.unsupported("nd.SliceLen of a non-slice")
+		}
+		return sl.Len, true
+	}
+	I[nd+"SwapElems"] = func(e *Engine, st *State, th *Thread, args []Value, call *ssa.CallCommon) (Value, bool) {
+		iv := args[0].(Iface)
+		sl, ok := iv.V.(Slice)
+		if !ok {
+			e.unsupported("nd.SwapElems of a non-slice")
+		}
+		et := iv.T.Underlying().(*types.Slice).Elem()
+		i, j := args[1].(*smt.Term), args[2].(*smt.Term)
+		e.boundsCheck(st, i, sl.Len, "swap index")
+		e.boundsCheck(st, j, sl.Len, "swap index")
+		pi, pj := e.elemPtr(sl, i), e.elemPtr(sl, j)
+		vi, vj := e.load(st, pi, et), e.load(st, pj, et)
+		e.store(st, pi, et, vj)
+		e.store(st, pj, et, vi)
+		return nil, true
+	}
 	I[nd+"LazyTimers"] = func(e *Engine, st *State, th *Thread, args []Value, call *ssa.CallCommon) (Value, bool) {
 		st.LazyTimers = args[0].(*smt.Term).IsTrue()
 		return nil, true
